@@ -101,6 +101,8 @@ func (t *transport) acceptLoop(g *genWG, ln net.Listener) {
 
 	t.applyKeepAlive(conn)
 
+	vgate("tr.accepted")
+
 	// Publish the socket before rt.TCPUp / spawning the recv loop. The g.recv.Add(1) below is
 	// issued BEFORE this goroutine can return (the refuse loop keeps it alive until Stop closes
 	// ln), so Stop's g.accept.Wait (which precedes g.recv.Wait) makes the Add happen-before that
